@@ -194,18 +194,27 @@ func appendSnapshotConstants(b []byte, s *slip.Scope) []byte {
 			return va[i].Pkg.Name < va[j].Pkg.Name
 		})
 		for _, c := range va {
-			form := slip.List{
-				slip.Symbol("defconstant"),
-				slip.Symbol(strings.Join([]string{c.Pkg.Name, c.String()}, "::")),
-				c.Value(),
-			}
-			if 0 < len(c.Doc) {
-				form = append(form, slip.String(c.Doc))
-			}
-			b = pp.Append(b, s, form)
+			b = appendDefConstant(b, s, c)
 		}
 	}
 	return b
+}
+
+func appendDefConstant(b []byte, s *slip.Scope, c *slip.VarVal) (out []byte) {
+	defer func() {
+		if recover() != nil {
+			out = b
+		}
+	}()
+	form := slip.List{
+		slip.Symbol("defconstant"),
+		slip.Symbol(strings.Join([]string{c.Pkg.Name, c.String()}, "::")),
+		ppValue(c.Value()),
+	}
+	if 0 < len(c.Doc) {
+		form = append(form, slip.String(c.Doc))
+	}
+	return pp.Append(b, s, form)
 }
 
 func appendSnapshotFlavors(b []byte, s *slip.Scope) []byte {
